@@ -1,9 +1,156 @@
-(* C16 — property theorems only: each closed by [exact] of a lemma proved elsewhere. *)
-From Coq Require Import List String ZArith.
-From Helm Require Import Chart.Paths Chart.Archive Chart.Lock Gen.Limits.
+(* C16 — File-writing operations never escape their directory or exceed size limits.
+   Property theorems only: each closed by [exact] of a lemma proved under Chart/. *)
+From Coq Require Import List String Ascii Bool ZArith.
+From Helm Require Import Chart.Paths Chart.PathsProofs Chart.Archive Chart.ArchiveProofs
+  Chart.Lock Chart.LockProofs Gen.Limits.
+Import ListNotations.
+Local Open Scope string_scope.
 Local Open Scope Z_scope.
 
+(* ---------- the limits, read from archive.go by the translator ---------- *)
 Theorem C16_limits_table :
   0 < max_decompressed_file_size /\ max_decompressed_file_size <= max_decompressed_chart_size.
 Proof. vm_compute. split; [reflexivity | discriminate]. Qed.
 Print Assumptions C16_limits_table.
+
+(* ---------- size budget ---------- *)
+(* For every entry sequence the tar reader can yield (it never yields more data than the
+   header declares, nor a negative size) and every pair of limits: an accepted archive has
+   every loaded file within the per-file limit, the loaded bytes and the declared sizes of
+   all counted entries strictly below the total limit.  Partial: entries that
+   FileInfo().IsDir() reports as directories are not counted (C16_dirmode_refuted). *)
+Theorem C16_size_budget_partial :
+  forall (maxt maxf : Z) (s : tstream) (fs : list file),
+  Forall (fun e => 0 <= te_size e /\ slen (te_data e) <= te_size e) (ts_entries s) ->
+  load_archive_files maxt maxf s = inr fs ->
+  Forall (fun f => slen (f_data f) <= maxf) fs /\
+  fold_right Z.add 0 (map (fun f => slen (f_data f)) fs) < maxt /\
+  Forall (fun e => te_size e <= maxf) (filter counted (ts_entries s)) /\
+  fold_right Z.add 0 (map te_size (filter counted (ts_entries s))) < maxt.
+Proof. exact size_budget. Qed.
+Print Assumptions C16_size_budget_partial.
+
+(* the same with the limits of the source tree *)
+Theorem C16_size_budget_default :
+  forall (s : tstream) (fs : list file),
+  Forall (fun e => 0 <= te_size e /\ slen (te_data e) <= te_size e) (ts_entries s) ->
+  load_archive_files max_decompressed_chart_size max_decompressed_file_size s = inr fs ->
+  Forall (fun f => slen (f_data f) <= max_decompressed_file_size) fs /\
+  fold_right Z.add 0 (map (fun f => slen (f_data f)) fs) < max_decompressed_chart_size.
+Proof.
+  exact (fun s fs H1 H2 =>
+    let H := size_budget max_decompressed_chart_size max_decompressed_file_size s fs H1 H2 in
+    conj (proj1 H) (proj1 (proj2 H))).
+Qed.
+Print Assumptions C16_size_budget_default.
+
+(* whether or not the archive is accepted: no single read exceeds min(declared, remaining)
+   and all reads together stay within the total limit *)
+Theorem C16_reads_bounded :
+  forall (maxt maxf : Z) (s : tstream),
+  Forall (fun e => 0 <= te_size e /\ slen (te_data e) <= te_size e) (ts_entries s) ->
+  let rs := snd (load_archive_trace maxt maxf s) in
+  Forall (fun r => 0 <= rd_n r <= Z.min (rd_size r) (rd_rem r)) rs /\
+  fold_right Z.add 0 (map rd_n rs) <= Z.max 0 maxt.
+Proof. exact reads_bounded. Qed.
+Print Assumptions C16_reads_bounded.
+
+Example C16_size_budget_ex :
+  Forall (fun e => 0 <= te_size e /\ slen (te_data e) <= te_size e) (ts_entries ok_stream) /\
+  load_archive_files 10 5 ok_stream = inr [mkFile "Chart.yaml" "name"; mkFile "templates/a.yaml" "a:1"].
+Proof. exact size_budget_example. Qed.
+Print Assumptions C16_size_budget_ex.
+
+(* K5 (known finding): a regular-typed entry with directory mode bits is skipped uncounted,
+   so the declared content of regular entries can exceed the total limit of an accepted archive *)
+Theorem C16_dirmode_refuted :
+  exists s fs,
+    Forall (fun e => 0 <= te_size e /\ slen (te_data e) <= te_size e) (ts_entries s) /\
+    load_archive_files 10 5 s = inr fs /\
+    fold_right Z.add 0 (map te_size (filter (fun e => te_type e =? 48) (ts_entries s))) > 10.
+Proof. exact dirmode_refuted. Qed.
+Print Assumptions C16_dirmode_refuted.
+
+(* ---------- names ---------- *)
+(* every name LoadArchiveFiles accepts is a clean relative path: every component non-empty
+   and different from "." and "..", no backslash, no drive prefix (hence no leading "/") *)
+Theorem C16_names_clean :
+  forall (hdname n : string), arch_name hdname = inr n ->
+  Forall (fun c => c <> "" /\ c <> "." /\ c <> "..") (split_on slash n) /\
+  contains_char bslash n = false /\ drive_prefix n = false.
+Proof. exact arch_name_clean. Qed.
+Print Assumptions C16_names_clean.
+
+Theorem C16_names_clean_files :
+  forall (maxt maxf : Z) (s : tstream) (fs : list file),
+  load_archive_files maxt maxf s = inr fs -> Forall (fun f => clean_rel (f_name f)) fs.
+Proof. exact loaded_names_clean. Qed.
+Print Assumptions C16_names_clean_files.
+
+Example C16_names_clean_ex :
+  arch_name "chart\sub/..\templates/./a.yaml" = inr "templates/a.yaml" /\
+  arch_name "chart/../../etc/passwd" = inl EParent /\ arch_name "chart/c:/x" = inl EDrive.
+Proof. exact names_example. Qed.
+Print Assumptions C16_names_clean_ex.
+
+(* ---------- joins ---------- *)
+(* the lexical join of any non-empty destination with an accepted name: the cleaned
+   destination components are a proper prefix of the cleaned joined path's components,
+   and what follows them are the name's own (good) components *)
+Theorem C16_join_confined :
+  forall (hdname n d : string), arch_name hdname = inr n -> d <> "" ->
+  path_join d n = path_clean (d ++ "/" ++ n) /\
+  clean_comps (d ++ "/" ++ n) = (clean_comps d ++ split_on slash n)%list /\
+  split_on slash n <> [] /\
+  Forall (fun c => c <> "" /\ c <> "." /\ c <> "..") (split_on slash n).
+Proof. exact arch_join_confined. Qed.
+Print Assumptions C16_join_confined.
+
+(* cleanJoin of the plugin installer: an accepted name adds only good components below the
+   cleaned root, and the returned path is the root followed by exactly those *)
+Theorem C16_cleanjoin_confined :
+  forall (root dest p : string), clean_join root dest = inr p ->
+  let dest' := replace_char bslash slash dest in
+  let rest := filter (fun c => negb (trivial_comp c)) (split_on slash dest') in
+  Forall (fun c => c <> "" /\ c <> "." /\ c <> "..") rest /\
+  clean_comps (path_clean root ++ "/" ++ dest') = (clean_comps (path_clean root) ++ rest)%list /\
+  p = match rest with [] => path_clean root | _ => path_clean root ++ "/" ++ join "/" rest end.
+Proof. exact clean_join_confined. Qed.
+Print Assumptions C16_cleanjoin_confined.
+
+Example C16_cleanjoin_ex :
+  clean_join "/plugins/./cache/" "bin\.\x//y" = inr "/plugins/cache/bin/x/y" /\
+  clean_join "/plugins" "a/../b" = inl CJDotDot /\ clean_join "/plugins" "c:x" = inl CJColon.
+Proof. exact cleanjoin_example. Qed.
+Print Assumptions C16_cleanjoin_ex.
+
+(* ---------- lock file ---------- *)
+(* writeLock (after fix 2970e48) on any file system: it fails, or it changes nothing but
+   the lock path, which ends up a regular file with the new content and was absent or a
+   regular file before — never a symlink or a directory *)
+Theorem C16_lock_confined :
+  forall (fs : fsys) (dir : string) (legacy : bool) (data : string) (fs' : fsys),
+  write_lock fs dir legacy data = Some fs' ->
+  (forall p, p <> lock_path dir legacy -> fs_get p fs' = fs_get p fs) /\
+  fs_get (lock_path dir legacy) fs' = Some (NFile data) /\
+  (fs_get (lock_path dir legacy) fs = None \/ exists d, fs_get (lock_path dir legacy) fs = Some (NFile d)).
+Proof. exact lock_confined. Qed.
+Print Assumptions C16_lock_confined.
+
+Example C16_lock_confined_ex :
+  exists fs', write_lock [("/work/chart", NDir); ("/work/chart/Chart.lock", NFile "old")] "/work/chart" false "new" = Some fs'
+              /\ fs_get "/work/chart/Chart.lock" fs' = Some (NFile "new").
+Proof. exact lock_example. Qed.
+Print Assumptions C16_lock_confined_ex.
+
+(* F9 (fixed by 2970e48): the behaviour before the fix wrote through a planted symlink *)
+Theorem C16_lock_symlink_refuted :
+  exists fs dir data fs' p,
+    write_lock_prefix fs dir false data = Some fs' /\ p <> lock_path dir false /\
+    fs_get p fs' <> fs_get p fs.
+Proof. exact lock_symlink_refuted. Qed.
+Print Assumptions C16_lock_symlink_refuted.
+
+Example C16_lock_symlink_now_refused : write_lock planted_fs "/work/chart" false "lock" = None.
+Proof. exact lock_symlink_refused. Qed.
+Print Assumptions C16_lock_symlink_now_refused.
